@@ -5,17 +5,25 @@
    hand-off, and what each consumer saw through the slice it had kept when it looked again at the end of
    the stream.  The model used is the REPAIRED code ([run false]).
    The input is pseudo-random and generated on both sides by the same function ([gen]), so that no input
-   bytes travel as text; observed bytes do (hex), except for very large messages which are compared by
+   bytes travel as text; observed bytes do (packed), except for very large messages which are compared by
    length + a checksum over every 61st byte + first and last 32 bytes. *)
+From Coq Require Import Uint63.
 From Relay Require Import Base.Prelude Model.Ingest.
 Local Open Scope N_scope.
 
-Definition hexval (a : ascii) : N := let n := N_of_ascii a in if n <? 58 then n - 48 else n - 87.
-Fixpoint hx (s : string) : bytes :=
-  match s with
-  | String a (String b r) => (16 * hexval a + hexval b) :: hx r
-  | _ => []
+(* byte strings arrive packed seven to a 63-bit machine integer (one Coq term per seven bytes keeps the case
+   files quick to read): [ub n ws] are the first n bytes, least significant byte of each word first *)
+Fixpoint word (k : nat) (w : Uint63.int) : bytes :=
+  match k with
+  | O => []
+  | S j => Z.to_N (Uint63.to_Z (Uint63.land w 255%uint63)) :: word j (Uint63.lsr w 8%uint63)
   end.
+Fixpoint ubn (n : nat) (ws : list Uint63.int) : bytes :=
+  match ws with
+  | [] => []
+  | w :: r => word (Nat.min n 7) w ++ ubn (n - 7) r
+  end.
+Definition ub (n : N) (ws : list Uint63.int) : bytes := ubn (N.to_nat n) ws.
 
 (* the input: three small counters (periods 251, 241, 239; together > 14 million) added up.  Cheap enough
    for vm_compute on megabyte inputs; harness/cmd/c17 computes the same bytes. *)
